@@ -87,8 +87,9 @@ def is_enum(name):
 
 
 def is_var(name):
+    """The variable `name`; a copy of it made by helper inlining (`name@k`) counts as the same name."""
     return lambda d: isinstance(strip(d), dict) and strip(d).get('k') == 'var' and \
-        strip(d)['n'] == name
+        (strip(d)['n'] == name or strip(d)['n'].split('@')[0] == name)
 
 
 def is_field(name):
